@@ -84,8 +84,48 @@ def _variant_arms(F, f):
     return arms, best
 
 
-def _items_traced(arm, sink_name):
-    """Does the arm hand list-cell targets (ListItem / as_list_item / AssociativeItem payloads) to the sink?"""
+def _local_helpers(F, node, owner, depth=0):
+    """Workspace functions of the data crate called under `node` (helpers the arm's work may have been extracted into),
+    two hops, excluding the passes themselves."""
+    out = []
+    if depth > 1:
+        return out
+    for d, c in hirq.calls_in(node):
+        g = F.fns.get(d)
+        if g is None or g["crate"] != "garnish_lang_simple_data" or g["kind"] == "Closure" or not g.get("hir"):
+            continue
+        if g.get("name") in ("create_index_stack", "clone_index_stack", "lookup_in_data_slice", "lookup_in_data_slice_optional", "push_to_data_block",
+                             "get_from_data_block_ensure_index") or g["path"] == owner:
+            continue
+        out.append((g, c))
+        out.extend(_local_helpers(F, g["hir"], owner, depth + 1))
+    return out
+
+
+def _sink_params(F, g, is_sink, depth=0):
+    """Parameter positions of helper g whose value reaches the address argument of a sink call inside g."""
+    body = Body(g)
+    lid2pos = {}
+    for i, prm in enumerate(g.get("params", [])):
+        for n in walk(prm):
+            if n.get("k") == "Binding":
+                lid2pos[n["lid"]] = i
+    out = set()
+    for d, c in hirq.calls_in(g["hir"]):
+        if is_sink(d):
+            args = call_args(c)
+            if args:
+                out |= _reach(body, args[-1], lid2pos)
+    return out
+
+
+def _items_traced(arm, sink_name, F=None, owner=None):
+    """Does the arm hand list-cell targets (ListItem / as_list_item / AssociativeItem payloads) to the sink?  The loop over
+    the cells may live in a helper the arm calls."""
+    if F is not None:
+        for g, _c in _local_helpers(F, arm["body"], owner):
+            if _items_traced({"body": g["hir"]}, sink_name):
+                return True
     for n in walk(arm["body"]):
         if n.get("k") == "MethodCall" and n.get("m") == "as_list_item":
             return True
@@ -112,7 +152,13 @@ def trace_sets(F, f):
                 s |= _reach(body, c["args"][0], lid2pos)
             if "push_clone_items_for_custom_data" in d:
                 s.add("delegate")
-        if _items_traced(arm, "CloneItem"):
+        for g, c in _local_helpers(F, arm["body"], f["path"]):
+            ps = _sink_params(F, g, lambda d: d.endswith("BasicData::CloneItem"))
+            args = call_args(c)
+            for k_ in ps:
+                if isinstance(k_, int) and k_ < len(args):
+                    s |= _reach(body, args[k_], lid2pos)
+        if _items_traced(arm, "CloneItem", F, f["path"]):
             s.add("items")
         out[v] = (s, loc(arm))
     return out, m
@@ -140,7 +186,13 @@ def remap_sets(F, f):
                 for a in c["args"]:
                     pos.append(_reach(body, a, lid2pos))
                 rebuilt = pos
-        if _items_traced(arm, "lookup_in_data_slice"):
+        for g, c in _local_helpers(F, arm["body"], f["path"]):
+            ps = _sink_params(F, g, lambda d: last(d) in ("lookup_in_data_slice", "lookup_in_data_slice_optional"))
+            args = call_args(c)
+            for k_ in ps:
+                if isinstance(k_, int) and k_ < len(args):
+                    s |= _reach(body, args[k_], lid2pos)
+        if _items_traced(arm, "lookup_in_data_slice", F, f["path"]):
             s.add("items")
         cannot = any(hirq.path_def(n) and str(hirq.path_def(n)).endswith("DataErrorType::CannotClone") for n in walk(arm["body"]) if n.get("k") == "Path")
         out[v] = (s, rebuilt, loc(arm), cannot)
@@ -208,7 +260,13 @@ def rule_T8(ctx):
 
     def root_kind(e):
         kinds = set()
-        for o in body.origins(e):
+        orgs = list(body.origins(e))
+        for o in list(orgs):
+            # a literal collection of roots (`for root in [register, value, frame].into_iter().flatten()`): every element
+            if o.get("k") in ("Array", "Tup"):
+                for x in o.get("es", []):
+                    orgs.extend(body.origins(x))
+        for o in orgs:
             d = callee(o) or ""
             n = last(d)
             if n.startswith("get_from_symbol_table_block_ensure_index"):
